@@ -34,7 +34,7 @@ def run(chk):
     clones.rule_unreachable(chk, 'U1', ('cipher',), floor=20)
     from . import twins as _tw
     _tw.rule_copy_siblings(chk, cf.PROGRAM[0] or cf.Program(), 'X5', floor=100)
-    _tw.rule_field_copies(chk, cf.PROGRAM[0] or cf.Program(), 'X4', floor=120)
+    _tw.rule_field_copies(chk, cf.PROGRAM[0] or cf.Program(), 'X4', floor=40)
     from . import twins
     twins.rule_token_agreement(chk, cf.PROGRAM[0] or cf.Program(), 'K1', floor=150)
     from . import srcdst
